@@ -87,10 +87,14 @@ def run(tier, seed):
                     if t not in comp.zones_map:
                         rep.violation('c03:%s:%s:link-to-missing-zone' % (tag, scope), {'link': l, 'target': t})
                     elif l in tabs and t in tabs and tabs[l] != tabs[t]:
-                        raise Broken('zic link table differs from target: %s' % l)
+                        rep.violation('c03:%s:%s:link-target-differs-from-zic' % (tag, scope), {'link': l, 'emitted_target': t})
                 if arduino and (y0, y1) == windows[0] and strict == stricts[0]:
                     res, err = gensweep.sweep_generated(comp, tabs, 'c03', tier, seed, step=arduino.get('step'), win=arduino.get('win', 0))
-                    if res is None:
+                    if res is None and err.startswith('GENERATOR-RAISED'):
+                        # the Python tables of this very compilation were emitted, so the source was accepted: the arduino
+                        # generator failing on it is a defect, not a refusal
+                        rep.violation('c03:%s:%s:arduino:generator-raised' % (tag, scope), {'error': err})
+                    elif res is None:
                         rep.violation('c03:%s:%s:arduino:generated-code-does-not-compile' % (tag, scope), {'compiler': err[-1200:]})
                     else:
                         # re-key violations under this source
@@ -179,6 +183,9 @@ def run(tier, seed):
     labels6 = {c[4]: (c[0], c[1], c[2], c[3]) for i, c in enumerate(g6) if i in k6}
     do_source('S6-granularity', '\n'.join(c[3] for i, c in enumerate(g6) if i in k6) + '\n', sorted(labels6), [(2000, 2050)], labels=labels6, stricts=(False, True),
               arduino={'step': 3600, 'win': 2 * 3600})
+    # ---- S10: Link lines in every relation to zones and to each other
+    t10, z10, l10 = mutants.link_source()
+    do_source('S10-links', t10, z10 + sorted(l10), [(2000, 2050)], arduino={'step': 6 * 3600, 'win': 3600})
     # ---- S9: 3..9 eras inside one year (kMaxMatches)
     e9 = mutants.many_eras()
     labels9 = {c[4]: (c[0], c[1], c[2], c[3]) for c in e9}
